@@ -223,3 +223,179 @@ PROPS["C10"] = dict(
               "dependency graph, reload passes)"],
     assumptions=["operations are issued sequentially (one test thread + the reloader it waits for)"],
 )
+
+
+def sys_prop(pid, technique, level_text, proof_files, proof_targets, theorems, gen, relevant, mode="all",
+             extra_engines=(), level_note=None, assumptions=()):
+    PROPS[pid] = dict(
+        technique=technique,
+        level_text=level_text,
+        level_note=level_note or "Trusted: Coq kernel+VM, rs2v, the harness universe and hooks (pass order, settle "
+                                 "barrier); the model is the implementation's behaviour as far as sysdiff explores.",
+        gen=gen,
+        model_files=SYS_MODEL_FILES,
+        model_targets=["Corr/SysCheck.vo"],
+        proof_files=proof_files,
+        proof_targets=proof_targets,
+        props_module="Props." + pid,
+        theorems=theorems,
+        engines=[("sysdiff", ["--mode", mode])] + list(extra_engines),
+        relevant_classes=relevant,
+        rule=SYS_RULE,
+        trusted_base=SYS_TRUSTED,
+        modelled=["the whole sequential system as Ref.Sys.step (cache, source, loaders, scripts, recording, "
+                  "dependency graph, reload passes)"],
+        assumptions=["operations are issued sequentially (one test thread + the reloader it waits for)"]
+                    + list(assumptions),
+    )
+
+
+sys_prop(
+    "C02",
+    "Coq theorems on the executable system model Ref.Sys (loads only add entries, for every nesting, by fuel "
+    "induction; exact effect of get_cached / contains / get_or_insert / remove / take / clear); whole-history "
+    "differential correspondence through AssetCache, LocalAssetCache and AnyCache views (sysdiff) incl. a "
+    "hash-seed sweep of two types under one id",
+    "Theorems (Props/C02.v, closed under the global context): in the model a load (however Compounds nest, "
+    "whether it succeeds, fails or panics) and a load_owned never change or remove an existing entry; "
+    "get_cached and contains leave the map unchanged; get_or_insert returns the stored entry and drops its "
+    "argument when the key is present, and inserts exactly its argument otherwise; remove / take delete "
+    "exactly the named key (take returning the stored value), clear empties the map; a successful load is "
+    "cached under its key.  One model serves the three front-ends; sysdiff runs the same histories through "
+    "all of them.  Partial: `a failed load caches nothing under its own key` is observed by the "
+    "correspondence, not proved (it needs a termination argument for self-referential scripts).",
+    ["Proofs/SysGrows.v", "Proofs/SysStatic.v", "Proofs/SysMap.v", "Props/C02.v"], ["Props/C02.vo"],
+    ["C02_load_only_adds", "C02_load_owned_adds_nothing_of_its_own", "C02_get_cached_and_contains_add_nothing",
+     "C02_load_of_a_present_key_returns_it", "C02_successful_load_is_cached",
+     "C02_get_or_insert_never_overwrites", "C02_get_or_insert_inserts_when_absent",
+     "C02_remove_deletes_exactly_its_key", "C02_take_deletes_exactly_its_key_and_returns_it",
+     "C02_clear_empties"],
+    [], ["handle-changed", "key-type-confusion"])
+
+sys_prop(
+    "C03",
+    "Coq: ErrorKind::or regenerated from src/error.rs and proved equal to the model for all error pairs; "
+    "load_from_source regenerated and checked equal to the model on all extension lists up to length 3 "
+    "(exhaustive, bounded); theorems for every extension list on the model (first readable+decodable wins, "
+    "error class is the maximum); differential correspondence of loads incl. I/O traces (sysdiff)",
+    "Theorems (Props/C03.v, closed under the global context): the printed ErrorKind::or is the model's `or` "
+    "for every pair of errors, and `or` yields the higher class (decoding > other I/O > not found > no "
+    "default); the printed load_from_source equals the model on every extension list of length <= 3 and "
+    "every per-extension outcome (85 shapes x 2 default_value behaviours, bound in the statement); for "
+    "EVERY extension list the first extension whose file can be read and decoded wins with the loader's "
+    "result, otherwise default_value receives an error that is one of the attempts' errors of maximal class; "
+    "the empty list goes to default_value with NoDefaultValue.  Error ids/wrapping, FileContent variants, "
+    "retry after repair are checked by the correspondence (traces of reads and loader calls compared verbatim).",
+    ["Proofs/Load.v", "Tie/Error.v", "Tie/LoadFromSource.v", "Props/C03.v"], ["Props/C03.vo"],
+    ["C03_code_or_is_model_or", "C03_or_prefers_the_higher_class",
+     "C03_code_load_from_source_is_model_up_to_3_extensions", "C03_first_readable_decodable_extension_wins",
+     "C03_all_fail_highest_class_error_goes_to_default", "C03_empty_extension_list_goes_to_default"],
+    ["Error", "Asset", "Key"], [], mode="cold")
+
+sys_prop(
+    "C05",
+    "Coq: build-system theorem for arbitrary loaders determined by their reported reads (a pass in an order "
+    "without late binding restores consistency, dynamic dependencies included), DFS exactness / duplicates / "
+    "dependencies-first on acyclic graphs, DFS discipline and message-drain order tied to the source; "
+    "differential correspondence of edit/notify/reload histories with the pass order checked legal by the "
+    "model and a model-side fresh-load monitor; known finding D8 keyed by the late-binding class",
+    "Theorems (Props/C05.v, closed under the global context): L1 the sort lists exactly the assets reachable "
+    "from the changed entries, once each, dependencies first on acyclic graphs, and the printed visit follows "
+    "that DFS; the reloader drains cache messages before taking an event; L2 for any loaders determined by "
+    "their reported reads a pass in an order with no late binding leaves every visited, non-failed asset "
+    "consistent with the new source (failed ones keep value and dependencies; dependency sets are re-learned); "
+    "the late-binding situation really goes stale (witness = known finding D8).  L3 (the system model runs "
+    "such a pass under the implementation's order, which it checks legal) is tied by correspondence, not by a "
+    "theorem connecting Ref.Sys to the abstract pass: partial.",
+    ["Proofs/Dfs.v", "Proofs/Pass.v", "Tie/Graph.v", "Tie/Answers.v", "Tie/Records.v", "Props/C05.v"],
+    ["Props/C05.vo"],
+    ["C05_pass_visits_exactly_the_affected_once", "C05_dependencies_first",
+     "C05_code_follows_the_dfs_and_drains_messages_first", "C05_pass_restores_consistency",
+     "C05_late_binding_goes_stale", "C05_recording_as_modelled"],
+    ["Deps", "HotReloading", "Records", "Anycache", "Asset"], ["late-bound-stale", "stale-after-pass"], mode="hot",
+    assumptions=["I1: a change counts as notified once the reloader has dequeued the event (settle barrier)",
+                 "I2/I3: dependencies are those of the load that produced the cached value; a get_cached that "
+                 "found nothing is not a trigger when the key appears later"])
+
+sys_prop(
+    "C06",
+    "Coq theorems on Ref.Sys (loads never touch graph / changed set; reload ids move only in a pass and by "
+    "exactly one per rewrite; watcher semantics), DFS NoDup/exactness, write script discipline + guard "
+    "pinning for the poller; differential correspondence incl. reload ids, flags, watchers and the I/O trace "
+    "of every operation (no source read outside a pass); poller scenarios in rwdiff",
+    "Theorems (Props/C06.v, closed under the global context): a load never changes the dependency graph or "
+    "the set of changed entries; outside a reload pass no kept entry changes its reload id; one reload either "
+    "leaves the entry as it was or replaces it with reload id + 1 and the flag raised; a pass visits each "
+    "affected asset exactly once; a watcher answers true exactly when the id grew since it last asked and "
+    "remembers; under a guard value and id are pinned together (write script accepted by the lock "
+    "discipline), so what is read after a reported reload is at least that new.  `only if an entry it "
+    "recorded was notified` and `never re-reads the source on its own` are enforced by the correspondence "
+    "(visited set = model's reachable set; I/O traces equal).",
+    ["Proofs/SysGrows.v", "Proofs/SysFrame.v", "Proofs/SysStatic.v", "Proofs/SysMap.v", "Proofs/SysReload.v",
+     "Proofs/Dfs.v", "Proofs/RwProof.v", "Proofs/RwStep.v", "Proofs/RwPin.v", "Tie/Entry.v", "Tie/CallGraph.v",
+     "Props/C06.v"],
+    ["Props/C06.vo"],
+    ["C06_loads_leave_reloader_state", "C06_reload_id_moves_only_in_a_pass", "C06_reload_bumps_id_by_one",
+     "C06_each_affected_asset_once", "C06_watcher_reports_growth_once",
+     "C06_value_read_after_a_reported_reload_is_as_new"],
+    ["Entry", "CallGraph"], [], mode="hot", extra_engines=[("rwdiff", [])])
+
+sys_prop(
+    "C09",
+    "Coq theorems on Ref.Sys for every state (hence every fault plan and failing/panicking script): cached "
+    "values untouched, recording cell restored (stack shape; empty at top level), reload all-or-nothing; drop "
+    "guard and catch_unwind tied to the source; differential correspondence with per-read-index fault plans, "
+    "failing and panicking loaders during loads and reloads (sysdiff) and the hang-after-panic child (answers)",
+    "Theorems (Props/C09.v, closed under the global context): whatever a load does (error, panic, fault at "
+    "any read index) existing entries are untouched, the recording cell has the same stack of records "
+    "afterwards (empty at top level), graph and changed set are untouched; the code restores the cell through "
+    "a drop guard; one reload is all-or-nothing; DepsGraph::reload treats an unwinding reload as failed.  "
+    "`later calls recover` and `hot_reload still returns` are exercised by the engines.",
+    ["Proofs/SysGrows.v", "Proofs/SysFrame.v", "Proofs/SysRecs.v", "Proofs/SysStatic.v", "Proofs/SysMap.v",
+     "Proofs/SysReload.v", "Tie/Records.v", "Tie/Erasure.v", "Props/C09.v"],
+    ["Props/C09.vo"],
+    ["C09_cached_values_untouched", "C09_recording_restored_at_top_level", "C09_recording_stack_restored",
+     "C09_code_restores_recording_on_every_exit", "C09_reload_is_all_or_nothing",
+     "C09_code_treats_a_panicking_reload_as_failed", "C09_loads_leave_reloader_state"],
+    ["Records", "Deps"], ["hot_reload-hangs-after-loader-panic"], mode="all",
+    extra_engines=[("answers", ["--parts", "panic"])])
+
+sys_prop(
+    "C13",
+    "Coq theorems on Ref.Sys about who drops what, per operation; guarded casts of the type-erased storage "
+    "tied to the source; differential correspondence of dropped tokens per operation and an implementation-"
+    "side ledger (every value made is dropped exactly once by the time the cache is gone)",
+    "Theorems (Props/C13.v, closed under the global context): every cast of the erased storage in the "
+    "printed code is guarded by the TypeId comparison and yields None / Err / a panic otherwise; an insertion "
+    "that loses drops its value at once; remove / take / clear drop exactly the entries they delete (take "
+    "after handing the value over); loads never remove or replace an entry a handle can reach.  The "
+    "exactly-once ledger over whole histories (incl. reloads, races are C01) is checked on the implementation.  "
+    "Partial: swap_any's byte swap and Box::from_raw casts are memory-level and not modelled.",
+    ["Proofs/SysGrows.v", "Proofs/SysStatic.v", "Proofs/SysMap.v", "Proofs/SysReload.v", "Tie/Erasure.v",
+     "Props/C13.v"],
+    ["Props/C13.vo"],
+    ["C13_casts_are_guarded_by_the_type_id", "C13_insertion_loser_dropped_at_once",
+     "C13_remove_drops_exactly_the_removed", "C13_take_hands_over_then_the_caller_drops",
+     "C13_clear_drops_every_entry", "C13_entries_reachable_through_handles_survive_loads",
+     "C13_lookup_is_by_type"],
+    ["Entry"], ["value-not-dropped-exactly-once", "handle-changed"], mode="all")
+
+sys_prop(
+    "C14",
+    "Coq theorems on Ref.Sys (records below the current one are never touched; push/pop pairs give the stack "
+    "back exactly; a nested reloadable load leaves only the asset in the enclosing record; no_record / helper "
+    "threads record nothing), recording call sites and drop guard tied to the source; differential "
+    "correspondence of which assets each pass visits for nestings of load / load_owned / get_cached / "
+    "no_record / try / catch / threads",
+    "Theorems (Props/C14.v, closed under the global context): the printed record / no_record / CellGuard / "
+    "add_*_record / Record::insert_* and the call sites in Cache::read, read_dir, get_cached_entry_inner, "
+    "load_entry, load_owned_entry, load_and_record have the shapes the model assumes; in the model the nested "
+    "load of a reloadable asset adds only that asset to the enclosing record, whatever runs under no_record "
+    "or on a helper thread leaves the records exactly as they were (also after errors and panics), and at top "
+    "level nothing stays recorded.  `an edit reloads exactly the assets whose own load touched the entry, "
+    "plus dependents` is the correspondence of visited sets.  Not covered: two caches used from one load.",
+    ["Proofs/SysRecs.v", "Tie/Records.v", "Props/C14.v"], ["Props/C14.vo"],
+    ["C14_code_records_as_modelled", "C14_nested_reloadable_load_records_only_the_asset",
+     "C14_no_record_records_nothing", "C14_helper_thread_records_nothing",
+     "C14_top_level_load_leaves_no_record"],
+    ["Records", "Anycache", "Asset"], [], mode="hot")
